@@ -63,10 +63,22 @@ def run(prog: Program, res: Result, tier: str) -> None:
     src = norm(ts.node)
     upd = [s for s in body_walk(ts.node) if isinstance(s, ast.Assign) and norm(s.targets[0]) == "hdr_update"]
     ud = dict_literal_keys(upd[0].value) if upd else None
-    filt_ok = "header = self.to_dict()" in src and "for key, value in header.items() if key in sigproc.header_keys" in src and \
-        "sig_header.update(hdr_update)" in src and norm([s for s in body_walk(ts.node) if isinstance(s, ast.Return)][0].value) == "sig_header"
+    from ..normalform import canon, normal_form, returned
+    nft = normal_form(ts)
+    base_ = [e for e in nft.effects if e.kind == "set" and e.target.startswith("$") and
+             e.text() == canon("{key: value for key, value in self.to_dict().items() if key in sigproc.header_keys}")]
+    filt_ok = len(base_) == 1
+    if filt_ok:
+        d_ = base_[0].target
+        others_ = [e for e in nft.effects if e is not base_[0] and e.kind in ("set", "expr") and (d_ in (e.target or "") or e.text().startswith(d_ + "."))]
+        filt_ok = len(others_) == 1 and others_[0].kind == "expr" and others_[0].text().startswith(d_ + ".update({") and \
+            [e.text() for e in nft.returns()] == [d_]
     td = prog.func(HEADER, "Header.to_dict")
-    td_ok = "attributes = attrs.asdict(self)" in norm(td.node) and "isinstance(value, property)" in norm(td.node) and "attributes.update(prop)" in norm(td.node)
+    nfd = normal_form(td)
+    based = [e for e in nfd.effects if e.kind == "set" and e.target.startswith("$") and e.text() == canon("attrs.asdict(self)")]
+    td_ok = len(based) == 1 and [e.text() for e in nfd.returns()] == [based[0].target] and any(
+        e.text() == based[0].target + ".update(" + canon("{key: getattr(self, key) for key, value in vars(type(self)).items() if isinstance(value, property)}") + ")"
+        for e in nfd.exprs())
     if ud is None or not filt_ok or not td_ok:
         res.bad("R2", ts, ts.node, "to_sigproc no longer builds (fields + properties) filtered by header_keys, updated by a literal dict",
                 construct="to_sigproc", key="to_sigproc:shape")
@@ -101,7 +113,7 @@ def run(prog: Program, res: Result, tier: str) -> None:
         m = hdr.methods.get(pn)
         srcm = norm(m.node) if m else ""
         attr = "telescope" if pn == "telescope_id" else "backend"
-        ok = f"return sigproc.{table}.get(self.{attr}, 0)" in srcm
+        ok = m is not None and returned(m) == [canon(f"sigproc.{table}.get(self.{attr}, 0)")]
         (res.ok if ok else res.bad)("R2", m, m.node if m else hdr.node, f"{pn} = {table}[{attr}] (forward lookup)" if ok else
                                     f"{pn} no longer looks {attr} up in {table}", construct=pn, key=f"id:{pn}")
     for rname in ("Header.from_sigproc", "Header.from_fbh5"):
@@ -226,9 +238,19 @@ def run(prog: Program, res: Result, tier: str) -> None:
                         f"integer degrees are 0 and the sign is lost (-00:30:15.5 parses as +00:30:15.5)", key=key)
             else:
                 res.ok("R4", pr, sd.stmt, "the numeric sign multiplies the full angle (degrees, minutes and seconds)", key=key)
-    srcp = norm(pr.node)
-    okd = "de, ami = divmod(abs(src_dej), 10000)" in srcp and "ami, ase = divmod(ami, 100)" in srcp and \
-        "ho, mi = divmod(src_raj, 10000)" in srcp and "mi, se = divmod(mi, 100)" in srcp and "unit=(units.hourangle, units.deg)" in srcp
+    rets_pr = returned(pr)
+    okd = len(rets_pr) == 1 and rets_pr[0].startswith("SkyCoord(f") and rets_pr[0].endswith(", unit=(units.hourangle, units.deg))")
+    if okd:
+        pos_ = -1
+        for piece in ("{int(divmod(src_raj, 10000)[0])}", "{int(divmod(divmod(src_raj, 10000)[1], 100)[0])}", "{divmod(divmod(src_raj, 10000)[1], 100)[1]}",
+                      "{int(divmod(abs(src_dej), 10000)[0])}", "{int(divmod(divmod(abs(src_dej), 10000)[1], 100)[0])}",
+                      "{divmod(divmod(abs(src_dej), 10000)[1], 100)[1]}"):
+            nxt = rets_pr[0].find(piece, pos_ + 1)
+            if nxt < 0:
+                okd = False
+                break
+            pos_ = nxt
+        okd = okd and rets_pr[0].count("divmod(") == 10
     (res.ok if okd else res.bad)("R4", pr, pr.node, "DDMMSS.S / HHMMSS.S are split with divmod by 10000 and 100 on the magnitude" if okd else
                                  "parse_radec no longer splits the packed sexagesimal floats by 10000 / 100", construct="parse_radec", key="parse_radec:split")
 
